@@ -62,6 +62,7 @@ fn main() {
 								None => continue,
 							};
 							watchdog::set_context(&line);
+							watchdog::record_begin();
 							match rec["k"].as_str() {
 								Some("parse_bytes") => parsev::replay_bytes(&mut rep, &rec),
 								Some("parse") => parsev::replay_parse(&mut rep, &rec),
@@ -91,6 +92,7 @@ fn main() {
 								Some(k) => tool_error(&format!("unknown vector kind {k}")),
 								None => (),
 							}
+							watchdog::record_end();
 						}
 					}
 					(rep, macros)
